@@ -45,6 +45,11 @@ func fieldShape(w *WorldDesc, rpc *spec.RPC, msgFQ, name string) string {
 		card = "oneof"
 	}
 	s := place + ":" + f.Kind + ":" + card
+	if f.Kind == "message" {
+		if i := strings.LastIndex(f.TypeName, "."); i >= 0 && strings.HasPrefix(f.TypeName[i+1:], "Ann") {
+			s += ":type=" + f.TypeName[i+1:]
+		}
+	}
 	if a := fieldAnn(f); a != "" {
 		s += ":" + a
 	}
@@ -298,4 +303,13 @@ func drawServer(rt *rapid.T, label string) string {
 		return "go"
 	}
 	return rapid.SampledFrom([]string{"go", "go", "ts"}).Draw(rt, label)
+}
+
+// annType returns the name of the message type when it is one of the generator's
+// dedicated annotated types (Ann*), else "plain".
+func annType(fq string) string {
+	if i := strings.LastIndex(fq, "."); i >= 0 && strings.HasPrefix(fq[i+1:], "Ann") {
+		return fq[i+1:]
+	}
+	return "plain"
 }
